@@ -22,13 +22,21 @@ def generate(rng, tier):
         r = rng.fork(i)
         P = Prog()
         a, b, rel = geo_pair(P, r, True, False)
+        if r.chance(0.12):
+            # same ray, nearly coincident lengths (a few ulps .. 2^-30 relative apart): the worst case for any
+            # same-angle shortcut that keys on the exact blade count
+            ang = P.add('GAngle', a); m0 = r.choice([1.0, 2.5, 1e3, 1e-3])
+            a = P.add('GNewAngle', P.f(m0), ang)
+            b = P.add('GNewAngle', P.f(r.choice([fb.nxt(m0, 1), fb.nxt(m0, 3), m0 * (1 + 2.0**-30), m0 * (1 - 2.0**-20), m0 * 2])), ang)
+            rel = 'same-ray'
         na, nb = r.choice(SHIFTS + [0]), r.choice(SHIFTS + [0])
         if na == 0 and nb == 0: na = 1
         a2 = shift(P, a, na) if na else a
         b2 = shift(P, b, nb) if nb else b
         preds = []
         for op in ('GDot', 'GWedge', 'GMeet', 'GProject', 'GDist', 'GIsOrth'):
-            preds.append(('measure_shift_equal', [P.add(op, a, b), P.add(op, a2, b2), ['#', 4]]))
+            # the theorems prove these measurements BIT-identical under whole-turn shifts: no ulp allowance
+            preds.append(('measure_shift_equal', [P.add(op, a, b), P.add(op, a2, b2), ['#', 0 if op in ('GDot', 'GDist', 'GIsOrth', 'GWedge', 'GProject') else 4]]))
         rj1 = P.add('GReject', a, b); rj2 = P.add('GReject', a2, b2)
         if max(na, nb) <= 2**19:
             preds.append(('cart_close', [rj1, rj2, ['#', 4 * (na + nb) + 16], [a, a]]))
